@@ -44,11 +44,12 @@ class _Src(ItemSource):
 
 
 class _Task(ItemTask):
-    def __init__(self, name, log, latency, fail_item):
+    def __init__(self, name, log, latency, fail_item, fail_delay=0):
         self.name = name
         self.log = log
         self.latency = latency
         self.fail_item = fail_item
+        self.fail_delay = fail_delay
 
     @asyncio.coroutine
     def process(self, item):
@@ -56,18 +57,22 @@ class _Task(ItemTask):
         for _ in range(self.latency):
             yield from asyncio.sleep(0)
         if item == self.fail_item:
+            for _ in range(self.fail_delay):
+                yield from asyncio.sleep(0)          # the failing item takes longer than the others
             raise Boom('task')
         self.log.append((self.name, item, 'e'))
 
 
 def _world(chooser, nitems, ntasks, conc, latency, ev_kind, ev_step, ev_arg, ev2_step, fail_task, fail_item, fail_call, st):
-    """ev_kind: 0 none, 1 stop at ev_step, 2 concurrency := ev_arg at ev_step (and, if that pauses, := 1 at ev2_step; ev2_step < 0: stop then)."""
+    """ev_kind: 0 none, 1 stop at ev_step, 2 concurrency := ev_arg at ev_step (and, if that pauses, := 1 at ev2_step; ev2_step < 0: stop then),
+    3 pause (concurrency := 0) at ev_step and nothing afterwards."""
     log = []
     st['log'] = log
 
     async def main():
         src = _Src(nitems, fail_call, log)
-        tasks = [_Task('t%d' % i, log, latency, fail_item if i == fail_task else -1) for i in range(ntasks)]
+        fail_delay = ev2_step if (ev_kind == 3 and ev2_step > 0) else 0      # (ev2_step is otherwise unused for a pause without follow-up)
+        tasks = [_Task('t%d' % i, log, latency, fail_item if i == fail_task else -1, fail_delay) for i in range(ntasks)]
         pipe = Pipeline(src, tasks)
         pipe.concurrency = conc
         st['pipe'] = pipe
@@ -83,6 +88,8 @@ def _world(chooser, nitems, ntasks, conc, latency, ev_kind, ev_step, ev_arg, ev2
     events = []
     if ev_kind == 1:
         events.append((ev_step, 'STOP', None))
+    elif ev_kind == 3:
+        events.append((ev_step, 'CONC', 0))
     elif ev_kind == 2:
         events.append((ev_step, 'CONC', ev_arg))
         if ev_arg == 0:
@@ -126,6 +133,14 @@ def _judge(st, nitems, ntasks, conc, ev_kind, ev_arg, fail_task, fail_item, fail
     stopped = any(e[0] == 'STOP' for e in log)
     failing = (0 <= fail_task < ntasks and 1 <= fail_item <= nitems) or (1 <= fail_call)
     if res.startswith('hang'):
+        paused_for_good = ev_kind == 3 and any(e[0] == 'CONC' for e in log)
+        if paused_for_good:
+            # paused and never resumed: not finishing is intended - unless a task or the source had already failed
+            reached = any(len(e) == 3 and e[0] == 't%d' % fail_task and e[1] == fail_item and e[2] == 's' for e in log) or \
+                any(e[0] == 'get_item' and e[1] == fail_call for e in log)
+            if not (failing and reached):
+                hit('paused-for-good')
+                return True
         return False                                    # process() never returned / raised
     # per item: the sequence of task events is t0 s, t0 e, t1 s, t1 e ... a prefix of it, at most once
     want = []
@@ -175,7 +190,7 @@ def _all_schedules(choices, nitems, ntasks, conc, latency, ev_kind, ev_step, ev_
     ntasks = pick([1, 2], ntasks - 1)
     conc = pick([1, 2, 3], conc - 1)
     latency = pick([0, 1], latency)
-    ev_kind = pick([0, 1, 2], ev_kind)
+    ev_kind = pick([0, 1, 2, 3], ev_kind)
     ev_step = pick(list(range(40)), ev_step)
     ev_arg = pick([0, 1, 2, 3], ev_arg)
     ev2_step = pick(list(range(-1, 12)), ev2_step + 1)
@@ -220,7 +235,7 @@ def _bounded_schedules(p1, a1, p2, a2, nitems, ntasks, conc, latency, ev_kind, e
     ntasks = pick([1, 2], ntasks - 1)
     conc = pick([1, 2, 3], conc - 1)
     latency = pick([0, 1, 2], latency)
-    ev_kind = pick([0, 1, 2], ev_kind)
+    ev_kind = pick([0, 1, 2, 3], ev_kind)
     ev_step = pick(list(range(80)), ev_step)
     ev_arg = pick([0, 1, 2, 3], ev_arg)
     ev2_step = pick(list(range(-1, 12)), ev2_step + 1)
@@ -390,7 +405,7 @@ HARNESSES = [
           'non-zero exit status and the following pipeline is not run'),
     H('all_schedules', '_all_schedules', 'choices: List[int], ' + _SCHED_SIG,
       pre=['len(choices) == 60', '0 <= nitems <= 3 and 1 <= ntasks <= 2 and 1 <= conc <= 2 and 0 <= latency <= 1',
-           '0 <= ev_kind <= 2 and 0 <= ev_step <= 39 and 0 <= ev_arg <= 3 and -1 <= ev2_step <= 10',
+           '0 <= ev_kind <= 3 and 0 <= ev_step <= 39 and 0 <= ev_arg <= 3 and -1 <= ev2_step <= 10',
            '-1 <= fail_task <= 1 and -1 <= fail_item <= 3 and -1 <= fail_call <= 4'],
       parts={'quick': [
           {'tag': 'plain_i2_c2', 'fix': _fx(nitems=2, ntasks=1, conc=2, latency=0, **_NOEV, **_NOFAIL)},
@@ -416,11 +431,11 @@ HARNESSES = [
     H('bounded_schedules', '_bounded_schedules', 'p1: int, a1: int, p2: int, a2: int, ' + _SCHED_SIG,
       pre={'quick': ['0 <= p1 <= 50 and 1 <= a1 <= 2 and p1 < p2 <= 81 and 1 <= a2 <= 2',
                      '0 <= nitems <= 3 and 1 <= ntasks <= 2 and 1 <= conc <= 3 and 0 <= latency <= 1',
-                     '0 <= ev_kind <= 2 and 0 <= ev_step <= 40 and 0 <= ev_arg <= 3 and -1 <= ev2_step <= 10',
+                     '0 <= ev_kind <= 3 and 0 <= ev_step <= 40 and 0 <= ev_arg <= 3 and -1 <= ev2_step <= 10',
                      '-1 <= fail_task <= 1 and -1 <= fail_item <= 3 and -1 <= fail_call <= 4'],
            'thorough': ['0 <= p1 <= 80 and 1 <= a1 <= 3 and p1 < p2 <= 81 and 1 <= a2 <= 3',
                         '0 <= nitems <= 4 and 1 <= ntasks <= 2 and 1 <= conc <= 3 and 0 <= latency <= 2',
-                        '0 <= ev_kind <= 2 and 0 <= ev_step <= 79 and 0 <= ev_arg <= 3 and -1 <= ev2_step <= 10',
+                        '0 <= ev_kind <= 3 and 0 <= ev_step <= 79 and 0 <= ev_arg <= 3 and -1 <= ev2_step <= 10',
                         '-1 <= fail_task <= 1 and -1 <= fail_item <= 4 and -1 <= fail_call <= 5']},
       parts={'quick': [
           {'tag': 'plain', 'fix': _fx(nitems=3, ntasks=2, conc=2, latency=1, **_NOEV, **_NOFAIL), 'pre': ['p1 <= 30 and p2 <= 31']},
@@ -432,6 +447,10 @@ HARNESSES = [
           {'tag': 'srcfail', 'fix': _fx(nitems=3, ntasks=1, latency=1, **_NOEV, fail_task=-1, fail_item=-1, p2=81, a2=1), 'pre': ['fail_call >= 1 and conc <= 2']},
           {'tag': 'conc_then_fail', 'fix': _fx(nitems=3, ntasks=1, conc=1, latency=1, ev_kind=2, ev2_step=0, fail_task=0, fail_call=-1, p2=81, a2=1, a1=1),
            'pre': ['ev_arg >= 2 and ev_step <= 20 and p1 <= 25 and fail_item >= 1']},
+          {'tag': 'pause_then_fail', 'fix': _fx(nitems=3, ntasks=1, conc=2, latency=1, ev_kind=3, ev_arg=0, fail_task=0, fail_call=-1, p2=81, a2=1, a1=1, p1=0),
+           'pre': ['ev_step <= 25 and fail_item >= 1 and 0 <= ev2_step <= 6']},
+          {'tag': 'stop_then_fail', 'fix': _fx(nitems=3, ntasks=1, conc=2, latency=1, ev_kind=1, ev_arg=0, ev2_step=0, fail_task=0, fail_call=-1, p2=81, a2=1, a1=1),
+           'pre': ['ev_step <= 25 and p1 <= 25 and fail_item >= 1']},
       ], 'thorough': [
           {'tag': 'plain_c%d' % c, 'fix': _fx(conc=c, **_NOEV, **_NOFAIL), 'pre': ['nitems >= 2']} for c in (1, 2, 3)] + [
           {'tag': 'stop_c%d_i%d' % (c, i), 'fix': _fx(nitems=i, conc=c, ev_kind=1, ev_arg=0, ev2_step=0, **_NOFAIL), 'pre': ['p2 >= 81 or p2 <= 40']}
